@@ -24,20 +24,26 @@ func runEdits(r *run) error {
 	id := 0
 	next := func() string { id++; return fmt.Sprintf("e%d", id) }
 	type spec struct {
-		n      int
-		nEdits int
+		n       int
+		nEdits  int
+		maxEdit int // longest single edit; 0 = 20000
 	}
 	var specs []spec
 	if r.tier == "thorough" {
 		for i := 0; i < 60; i++ {
-			specs = append(specs, spec{100000 + g.intn(3000000), g.intn(7)})
+			specs = append(specs, spec{n: 100000 + g.intn(3000000), nEdits: g.intn(7)})
 		}
-		specs = append(specs, spec{9 << 20, 3}, spec{17<<20 + 12345, 5}, spec{33 << 20, 2})
+		specs = append(specs, spec{n: 9 << 20, nEdits: 3}, spec{n: 17<<20 + 12345, nEdits: 5}, spec{n: 33 << 20, nEdits: 2})
+		for i := 0; i < 15; i++ { // long unmatched runs (well beyond block length + chunk size) with unchanged data behind them
+			specs = append(specs, spec{n: 1000000 + g.intn(2000000), nEdits: 1 + g.intn(3), maxEdit: 60000 + g.intn(700000)})
+		}
 	} else {
 		for i := 0; i < 9; i++ {
-			specs = append(specs, spec{100000 + g.intn(1100000), g.intn(5)})
+			specs = append(specs, spec{n: 100000 + g.intn(1100000), nEdits: g.intn(5)})
 		}
-		specs = append(specs, spec{2<<20 + 777, 0}, spec{3 << 20, 2})
+		specs = append(specs, spec{n: 2<<20 + 777}, spec{n: 3 << 20, nEdits: 2})
+		// long unmatched runs (well beyond block length + chunk size) with unchanged data behind them
+		specs = append(specs, spec{n: 1500000, nEdits: 1, maxEdit: 700000}, spec{n: 2000000, nEdits: 3, maxEdit: 120000}, spec{n: 1200000, nEdits: 2, maxEdit: 400000})
 	}
 	for _, sp := range specs {
 		basis := g.bytes(sp.n) // high entropy
@@ -51,7 +57,7 @@ func runEdits(r *run) error {
 		if sp.nEdits == 0 {
 			target = append([]byte{}, basis...)
 			kind = "identical"
-		} else if g.chance(25) {
+		} else if sp.maxEdit == 0 && g.chance(25) {
 			// prepend a weak-checksum collision of the first block: same S1/S2, other bytes
 			blk := append([]byte{}, basis[:blen]...)
 			p := g.intn(int(blen) - 2)
@@ -69,7 +75,21 @@ func runEdits(r *run) error {
 			kind = "weakcoll-prepend"
 		} else {
 			var eds []edit
-			target, edited, eds = editData(g, basis, sp.nEdits, 20000)
+			if sp.maxEdit > 0 {
+				// one long run of new data in the middle (inserted, or replacing as many bytes), then short edits
+				kind = "long-edits"
+				pos := len(basis)/4 + g.intn(len(basis)/2)
+				run := g.bytes(sp.maxEdit)
+				rest := basis[pos:]
+				if g.bool() && len(rest) > sp.maxEdit {
+					rest = rest[sp.maxEdit:]
+				}
+				long := append(append(append([]byte{}, basis[:pos]...), run...), rest...)
+				target, edited, eds = editData(g, long, sp.nEdits-1, 20000)
+				edited += sp.maxEdit
+			} else {
+				target, edited, eds = editData(g, basis, sp.nEdits, 20000)
+			}
 			_ = eds
 		}
 		c := &senderCase{seed: int32(g.next()), basis: basis, target: target, kind: kind}
